@@ -41,6 +41,7 @@ def lib():
             self.cls = [(j + tag) % 3 for j in range(n)]
             self.disposed = 0
             self.marker = f"marker{tag}"
+            self._split = f"split{tag}"  # a 'private' attribute of the root: reachable through every chain like a public one
 
         def __len__(self):
             return self.n
@@ -462,6 +463,11 @@ def check_spec(spec, bulk="list"):
                         bad("get_wrapper_of_type", "wrong", T.__name__)
             if obj.marker != root.marker:
                 bad("attribute_delegation", "wrong", f"{obj.marker}")
+            try:
+                if obj._split != root._split or not hasattr(obj, "_split") or getattr(obj, "_split", None) != root._split:
+                    bad("attribute_delegation", "private_attribute_wrong", f"{getattr(obj, '_split', None)}")
+            except AttributeError as e:
+                bad("attribute_delegation", "private_attribute_not_resolved", repr(e))
             if obj.getshape_class() != (3,) or obj.getdim_class() != 3 or obj.getshape("class") != (3,) \
                     or obj.getdim("class") != 3:
                 bad("getshape", "wrong", "")
